@@ -193,6 +193,6 @@ def shard(args):
 
 def run(tier, seed, procs):
     quick = tier == 'quick'
-    shards, per = (8, 120) if quick else (16, 6000)
+    shards, per = (8, 250) if quick else (16, 6000)
     cols = drive.pool_map(shard, [(per, seed * 1000 + i) for i in range(shards)], procs)
     return drive.merge_all(PROP, cols)
